@@ -81,7 +81,9 @@ pub fn scenario_strategy(interrupts_in_prefix: bool, deletes_in_prefix: bool) ->
                 prefix,
                 edits,
                 opts,
-                id_spread,
+                // (stitching walks back one id at a time: a wide gap below a band without
+                // a head costs thousands of operations per run, so keep that combination small)
+                id_spread: if headless_band > 0 { id_spread.min(20) } else { id_spread },
                 headless_band,
             }
         })
